@@ -623,6 +623,115 @@ struct OverloadSys : StreamBase {
     }
 };
 
+// ---------------------------------------------------------------------------------------------- large streams
+// Capacities in the tens of MiB (where a growth policy may stop doubling): a few appends whose sizes are chosen around 8, 16 and
+// 32 MiB.  The content is a function of the offset, checked at both ends and at every seam; the tracking allocator's canary
+// sees a write past the block.
+struct LargeSys {
+    uint64_t n_checks = 0, n_scen = 0;
+    const char *name() const { return "large streams: appends of 1..25 MiB onto streams holding 0..33 MiB"; }
+    size_t op_count() const { return 0; }
+    bool enabled(size_t) const { return false; }
+    std::string op_name(size_t) const { return ""; }
+    void reset() {}
+    void apply(size_t, bool, hx::Fails &) {}
+    std::string key() const { return "large"; }
+    bool nontrivial() const { return true; }
+    static char gen(size_t off) { return (char)('A' + (off * 2654435761u >> 7) % 53); }
+    void scenario(const std::vector<size_t> &pieces, int how, hx::Fails &f)
+    {
+        ++n_scen;
+        const size_t MI = size_t(1) << 20;
+        std::string label;
+        for (size_t p : pieces) label += vf::strf("%s%zu", label.empty() ? "" : "+", p);
+        auto fail = [&](const std::string &what, const std::string &detail) {
+            f.push_back(hx::Fail{"c16:large-stream:" + what, vf::strf("appends of %s bytes (%s): %s", label.c_str(), how ? "append_char / append" : "append", detail.c_str())});
+        };
+        size_t total = 0;
+        for (size_t p : pieces) total += p;
+        std::vector<char> src;
+        {
+            vf::Bypass bp;
+            src.resize(total);
+        }
+        for (size_t i = 0; i < total; ++i) src[i] = gen(i);
+        vf::tracking_reset();
+        vf::events_reset();
+        const size_t saved = vf::g_alloc.max_request;
+        vf::g_alloc.max_request = size_t(1) << 31;
+        vf::Outcome oc = vf::guard([&] {
+            vf::OpScope sc;
+            ST::string_stream ss;
+            size_t off = 0;
+            for (size_t k = 0; k < pieces.size(); ++k) {
+                hx::note_phase(vf::strf("large stream %s: piece %zu", label.c_str(), k).c_str());
+                if (how == 1 && k == 0) {
+                    ss.append_char(gen(0), 1);
+                    ss.append(src.data() + 1, pieces[k] - 1);
+                } else
+                    ss.append(src.data() + off, pieces[k]);
+                off += pieces[k];
+                ++n_checks;
+                if (ss.size() != off) {
+                    fail("size", vf::strf("size() is %zu after %zu bytes", ss.size(), off));
+                    return;
+                }
+                if (!vf::check_canaries() || vf::events_total()) {
+                    fail("heap-event", vf::g_alloc.first_event);
+                    return;
+                }
+                const char *rb = ss.raw_buffer();
+                size_t seams[6] = {0, off - 1, off / 2, off - pieces[k], off >= pieces[k] + 1 ? off - pieces[k] - 1 : 0, off > 16 * MI ? 16 * MI : 0};
+                for (size_t q : seams)
+                    if (rb[q] != gen(q)) {
+                        fail("content", vf::strf("byte %zu of %zu is wrong", q, off));
+                        return;
+                    }
+            }
+            // every byte once, at the end
+            const char *rb = ss.raw_buffer();
+            ++n_checks;
+            for (size_t i = 0; i < total; ++i)
+                if (rb[i] != src[i]) {
+                    fail("content", vf::strf("byte %zu of %zu is wrong", i, total));
+                    return;
+                }
+            ss.truncate(5);
+            ss << 12345;
+            if (ss.size() != 10 || memcmp(ss.raw_buffer() + 5, "12345", 5) != 0) fail("after-truncate", "truncate(5) << 12345 gives the wrong content");
+        });
+        vf::g_alloc.max_request = saved;
+        if (!oc.ok()) fail(vf::outkind_name(oc.kind), oc.str());
+        if (vf::events_total()) fail("heap-event", vf::g_alloc.first_event);
+        if (vf::live_tracked()) fail("leak", vf::strf("%zu blocks live after the stream was destroyed", vf::live_tracked()));
+        vf::tracking_reset();
+        {
+            vf::Bypass bp;
+            std::vector<char>().swap(src);
+        }
+    }
+    void on_new_state(hx::Fails &f)
+    {
+        const size_t MI = size_t(1) << 20;
+        vf::tracking_begin();
+        for (int how = 0; how < 2; ++how) {
+            scenario({8 * MI + 1, 24 * MI}, how, f);
+            scenario({8 * MI + 1, 25 * MI}, how, f);
+            scenario({16 * MI, 16 * MI + 1}, how, f);
+            scenario({16 * MI + 1, 16 * MI, 1 * MI}, how, f);
+            scenario({4 * MI + 3, 4 * MI, 9 * MI, 1, 17 * MI}, how, f);
+            scenario({33 * MI, 1 * MI, 1 * MI}, how, f);
+        }
+        hx::note_phase("reads");
+    }
+    void samples(std::vector<std::string> &out) const { out.push_back(vf::strf("large streams: %llu scenarios, %llu checks", (unsigned long long)n_scen, (unsigned long long)n_checks)); }
+    void counters(std::map<std::string, uint64_t> &c) const
+    {
+        c["large-stream-scenarios"] += n_scen;
+        c["large-stream-checks"] += n_checks;
+    }
+};
+
 static void build(std::vector<hx::Job> &jobs, const vf::Opts &o, std::string &rule, std::vector<std::string> &assumptions)
 {
     G.resize(16384);
@@ -649,6 +758,12 @@ static void build(std::vector<hx::Job> &jobs, const vf::Opts &o, std::string &ru
         unsigned depth = T ? 3 : 2;
         lim.max_depth = 1 + depth;
         jobs.push_back(hx::make_job<OverloadSys>([depth]() { return new OverloadSys(depth); }, lim));
+    }
+    {
+        hx::Limits l1;
+        l1.max_depth = 0;
+        l1.hang_s = 120;
+        jobs.push_back(hx::make_job<LargeSys>([]() { return new LargeSys(); }, l1));
     }
 }
 
